@@ -1,6 +1,6 @@
 (* Rule-level executable model of phase 1 of esr/generation/generator.py: find_additional_trees
-   (first loop, 1416-1438 before the F4 fix / same loop after it) driving update_tree (576-990).
-   No proofs here (Proofs/RewriteProofs.v).
+   (first loop, "Try log, exp and sqrt changes", 1425-1447) driving update_tree (576-989), as of the
+   repaired code (commits 84989a6, dd5c7b6).  No proofs here (Proofs/RewriteProofs.v).
 
    update_tree(tree, labels, try_idx, basis) works on the prefix label list:
      * site discovery: every index i (in increasing order = pre-order) with
@@ -43,7 +43,7 @@
    Trees instead of label lists: the model rewrites expression trees (Model/Expr.v) and the produced
    label list is to_prefix of the result.  That the real code's index splices produce exactly these
    lists is what the correspondence run checks on every explored (basis, tree, try_idx). *)
-From Coq Require Import ZArith List Bool.
+From Coq Require Import ZArith List Bool Ring_polynom.
 From ESRV Require Import Model.Expr.
 Import ListNotations.
 Open Scope Z_scope.
@@ -216,19 +216,15 @@ Fixpoint drive (B : basis) (fuel : nat) (entries : list entry) : option (list ex
   end.
 
 (* number of power-operator nodes / of log_abs and exp nodes *)
-Fixpoint npow (e : expr) : nat :=
+Fixpoint usum (m : unop -> nat) (e : expr) : nat :=
   match e with
-  | Leaf _ => 0
-  | Un o a => (if is_pow o then 1 else 0) + npow a
-  | Bin _ a b => npow a + npow b
+  | Leaf _ => O
+  | Un o a => (m o + usum m a)%nat
+  | Bin _ a b => (usum m a + usum m b)%nat
   end.
 Definition is_le (o : unop) : bool := match o with LogAbs | Exp => true | _ => false end.
-Fixpoint nle (e : expr) : nat :=
-  match e with
-  | Leaf _ => 0
-  | Un o a => (if is_le o then 1 else 0) + nle a
-  | Bin _ a b => nle a + nle b
-  end.
+Definition npow : expr -> nat := usum (fun o => if is_pow o then 1%nat else O).
+Definition nle : expr -> nat := usum (fun o => if is_le o then 1%nat else O).
 
 Definition fuel_of (t : expr) : nat := S (nle t * npow t)%nat.
 
@@ -239,4 +235,62 @@ Definition phase1_labels (B : basis) (l : list label) : option (list (list label
   match of_prefix l with
   | Some t => match phase1 B t with Some rs => Some (map to_prefix rs) | None => None end
   | None => None
+  end.
+
+(* ---------------------------------------------------------------- certificates for the sum phase
+   update_sums (phase 2) is not modelled.  Each of its outputs r is instead CERTIFIED per instance:
+   the harness asks Coq whether  sum_equiv s r = true  for some s in the (proved) phase-1 list of the
+   original; sum_equiv_sound then gives eval s = eval r at every point.
+   sum_equiv: the two trees are equal, or they are equal as polynomials with integer coefficients over
+   their maximal subterms that are not +, -, *, integer (compared syntactically; the standard library's
+   reflexive ring normaliser Ring_polynom.norm_subst does the comparison), or they have the same root
+   operator and their arguments are pairwise sum_equiv.  Incomplete by design: false = "not certified". *)
+
+Fixpoint find_atom (a : expr) (tbl : list expr) (i : nat) : option nat :=
+  match tbl with
+  | [] => None
+  | b :: r => if expr_eqb a b then Some i else find_atom a r (S i)
+  end.
+
+(* polynomial expression over the atom table (variable n+1 = n-th atom); the table only grows at its end *)
+Definition reify_atom (tbl : list expr) (e : expr) : PExpr Z * list expr :=
+  match find_atom e tbl O with
+  | Some i => (PEX Z (Pos.of_succ_nat i), tbl)
+  | None => (PEX Z (Pos.of_succ_nat (length tbl)), tbl ++ [e])
+  end.
+
+Fixpoint reify (tbl : list expr) (e : expr) : PExpr Z * list expr :=
+  match e with
+  | Leaf (NNum z) => (PEc z, tbl)
+  | Bin Add a b => let (pa, t1) := reify tbl a in let (pb, t2) := reify t1 b in (PEadd pa pb, t2)
+  | Bin Sub a b => let (pa, t1) := reify tbl a in let (pb, t2) := reify t1 b in (PEsub pa pb, t2)
+  | Bin Mul a b => let (pa, t1) := reify tbl a in let (pb, t2) := reify t1 b in (PEmul pa pb, t2)
+  | _ => reify_atom tbl e
+  end.
+
+Definition znorm (pe : PExpr Z) : Pol Z :=
+  norm_subst 0 1 Z.add Z.mul Z.sub Z.opp Zeq_bool Z.quotrem O [] pe.
+
+Definition ring_eq (t r : expr) : bool :=
+  let (pt, tb1) := reify [] t in
+  let (pr, _) := reify tb1 r in
+  Peq Zeq_bool (znorm pt) (znorm pr).
+
+Fixpoint sum_equiv (t r : expr) : bool :=
+  expr_eqb t r || ring_eq t r ||
+  match t, r with
+  | Un o a, Un o' a' => unop_eqb o o' && sum_equiv a a'
+  | Bin o a b, Bin o' a' b' => binop_eqb o o' && sum_equiv a a' && sum_equiv b b'
+  | _, _ => false
+  end.
+
+(* is the label list r certified against some member of the phase-1 list of l ? *)
+Definition certified (B : basis) (l r : list label) : bool :=
+  match of_prefix l, of_prefix r with
+  | Some t, Some r' =>
+    match phase1 B t with
+    | Some ss => existsb (fun s => sum_equiv s r') ss
+    | None => false
+    end
+  | _, _ => false
   end.
